@@ -50,7 +50,7 @@ func c15Bodies() []string {
 	return out
 }
 
-var c15Queries = []string{"", "only_q=query-only", "src=query&only_q=query-only&list=q1", "src=q1&src=q2&list=a&list=b", "arr[]=qa&qnum=3&v=qn", "src=%zz&only_q=x", "arr[]=qa&arr[]=qb&list[]=zz"}
+var c15Queries = []string{"", "only_q=query-only", "src=query&only_q=query-only&list=q1", "src=q1&src=q2&list=a&list=b", "arr[]=qa&qnum=3&v=qn", "src=%zz&only_q=x", "arr[]=qa&arr[]=qb&list[]=zz", "src=q&nested=stray&v=under-the-nested-struct"}
 
 func c15Schema() *spec.Node {
 	probe := func(n *spec.Node) *spec.Node {
